@@ -348,8 +348,10 @@ class C19(Check):
             if got is None or want is None:
                 continue
             if got.startswith('UNSUPPORTED') or got.startswith('PARSE-UNSUPPORTED'):
-                ctx.count('flatten:unsupported-by-model')
+                ctx.count('flatten:spec-has-no-value' if line.startswith('flatspec') else 'flatten:unsupported-by-model')
                 continue
+            if line.startswith('flatspec'):
+                ctx.count('flatten:spec-has-a-value')
             if norm_ws(got) != norm_ws(want):
                 ctx.disagree(line.split(' ', 1)[0], case_json(case), explain(want), explain(got))
 
@@ -426,6 +428,9 @@ class C19(Check):
                             {'exception': repr(e)[:300]})
                 return res
             res.append(('resolve' + head[5:], '%s | %s | %s' % (got, show_log(log[n_parse:]), show_log(log[:n_parse]))))
+            # the specification with kept imports (`flatSpec`: groups in cascade order, kept @imports hoisted) against
+            # the implementation directly; it has no value (UNSUPPORTED) for trees with @namespace rules
+            res.append(('flatspec' + head[5:], res[-1][1]))
             # oracle: flattening preserves meaning
             if exc is not None:
                 ctx.count('flatten:raises:' + type(exc).__name__)
@@ -563,6 +568,7 @@ class C19(Check):
                 return res
             res.append(('resolvetree %s %s %s' % (enc(case['href']), S.wire_vfs(case['vfs']), S.wire_sheet(tree)),
                         '%s | %s' % (got, show_log(log[n0:]))))
+            res.append(('flatspectree' + res[-1][0][len('resolvetree'):], res[-1][1]))
             if any(k != 'u' for k, u in log[n0:]):
                 ctx.violate('every fetch goes through the fetcher the sheet was parsed with', w,
                             {'fetched_by_the_default_fetcher': [u for k, u in log[n0:] if k != 'u']})
